@@ -5,6 +5,20 @@ var registry = map[string][]HarnessDef{}
 func reg(prop string, defs ...HarnessDef) { registry[prop] = append(registry[prop], defs...) }
 
 func init() {
+	reg("C08",
+		HarnessDef{ID: "H8.2a", Spec: HarnessSpec{Name: "vH_C08_ts_session", Pkg: "pkg/protocol", LoopBound: 8, TimeoutS: 120}, ReplayFn: "vR_C08_ts_session",
+			What:   "sessionStruct.Unmarshal: accepted => |receiver minute - timestamp| <= 1; within one minute and well-formed => accepted; for every 32-byte metadata and every clock reading",
+			Bounds: "clock 2020..2100 at nanosecond resolution, all 2^256 metadata byte strings", Outside: "clock steps backwards during the call"},
+		HarnessDef{ID: "H8.2b", Spec: HarnessSpec{Name: "vH_C08_ts_dataack", Pkg: "pkg/protocol", LoopBound: 8, TimeoutS: 120}, ReplayFn: "vR_C08_ts_dataack",
+			What:   "dataAckStruct.Unmarshal: same timestamp window for data/ack metadata (non low-entropy types for the accept direction)",
+			Bounds: "clock 2020..2100, all metadata byte strings", Outside: "clock steps backwards during the call"},
+		HarnessDef{ID: "H8.1a", Spec: HarnessSpec{Name: "vH_C08_slots", Pkg: "pkg/cipher", LoopBound: 8, TimeoutS: 120, Solver: "cvc5-int"},
+			What:   "saltFromTime/cipherKeyEpoch slot arithmetic: |skew|<=60 s => sender slot among the receiver's three; |skew|>=240 s => not; slots are consecutive multiples of 120 s nearest to the instant",
+			Bounds: "all instants 1970+10min..2^35 s at ns resolution, skew |d| <= 1000 s", Outside: "instants beyond year 3058"},
+		HarnessDef{ID: "H8.1b", Spec: HarnessSpec{Name: "vH_C08_key_agreement", Pkg: "pkg/cipher", LoopBound: 40, TimeoutS: 240, Solver: "cvc5-int", Par: 2},
+			What:   "newBlockCipherList (real saltFromTime + PBKDF2 call + cipher construction): for |skew| <= 60 s the key a sender encrypts with equals one of the three keys the receiver derives, in both directions",
+			Bounds: "32-byte password, all instants/skews as above; SHA-256 and PBKDF2 uninterpreted", Outside: "hash collisions"},
+	)
 	reg("C17",
 		HarnessDef{ID: "H17.1a", Spec: HarnessSpec{Name: "vH_C17_pdepGeneric_rec", Pkg: "pkg/mathext", LoopBound: 64, TimeoutS: 240},
 			What:   "pdepGeneric satisfies the PDEP recursion on the lowest mask bit for all 2^128 (x,mask); its loop needs <= 64 iterations",
